@@ -454,6 +454,21 @@ func experiment(c *Ctx, dir string, sc scenario, cs *crashSpec, tag string) (*ob
 				}
 			}
 			release()
+			// the runner is on again: how long until it rewrites the record?  (The restarted daemon's
+			// monitor gives a unit it has just marked failed one second; a runner that an overloaded
+			// machine schedules later than that is another situation than the one this run is about.)
+			tMark := time.Now()
+			mark, _ := os.ReadFile(filepath.Join(unitDir, "status"))
+			for time.Since(tMark) < 5*time.Second {
+				b, _ := os.ReadFile(filepath.Join(unitDir, "status"))
+				if len(b) > 0 && !bytes.Equal(b, mark) {
+					break
+				}
+				time.Sleep(5 * time.Millisecond)
+			}
+			if time.Since(tMark) > 650*time.Millisecond {
+				o.HeldLate = true
+			}
 		}()
 	}
 	if err := startReady(a); err != nil {
